@@ -143,12 +143,12 @@ func (w *world) hook(point string, n *centrifuge.Node, _ *centrifuge.Client, _ s
 	}
 	win := w.windows[idx]
 	start := w.now()
-	// keys the parked sweep has (most probably) collected: believed deadline within the last 3 s
+	// keys the parked sweep has just collected: present (as far as the broadcasts tell) with a deadline <= now
 	var cands []string
 	w.mu.Lock()
 	w.cands = map[string]bool{}
 	for k, l := range w.live {
-		if l.deadline <= start && l.deadline > start-3000 {
+		if l.deadline <= start {
 			cands = append(cands, k)
 			w.cands[k] = true
 		}
@@ -291,13 +291,20 @@ func runCase(c *kit.Case) {
 		w.windows = append(w.windows, win)
 	}
 
-	env, err := mm.NewEnv(func(ch string) centrifuge.MapChannelOptions {
+	rec := &mm.Recorder{OnRecord: func(cl mm.Call) { // an expiry removal: the key is gone (targeting tracker only)
+		if _, explicit := tagID(cl.Pub.Tags, "rm"); cl.Pub.Removed && !explicit {
+			w.mu.Lock()
+			delete(w.live, lk(cl.Ch, cl.Pub.Key))
+			w.mu.Unlock()
+		}
+	}}
+	env, err := mm.NewEnvWith(func(ch string) centrifuge.MapChannelOptions {
 		cfg, ok := byName[ch]
 		if !ok {
 			return centrifuge.MapChannelOptions{}
 		}
 		return mm.ChannelOptions(cfg, 10*time.Minute, 0)
-	})
+	}, rec)
 	if err != nil {
 		c.Inconclusive("cannot create broker: " + err.Error())
 		return
@@ -602,7 +609,7 @@ func TestC24(t *testing.T) {
 			"StreamTTL 10 min and the auto-derived MetaTTL are never crossed (channel metadata expiry is out of scope); StreamSize is larger than any case so stream == all broadcasts",
 			"only the in-memory map broker is covered",
 		},
-		Cases:  map[string]int{"quick": 2500, "thorough": 40000},
+		Cases:  map[string]int{"quick": 2500, "thorough": 25000},
 		Bubble: true,
 		RequireCounters: []string{"op_between_phases", "op_between_phases_pub", "op_between_phases_ka", "op_between_phases_rm", "refreshed_before_deadline", "expired_once",
 			"removed_between_phases", "republished_between_phases_survived_until_own_deadline", "op_just_before_deadline", "op_just_after_deadline", "op_between_deadline_and_sweep",
